@@ -98,7 +98,7 @@ func DecodeChained(r io.Reader, opts ...DecodeOption) ([]*File, error) {
 		}
 		err := d.decode(r, false, false, false)
 		if err != nil {
-			if d.h.Size == 0 && i != 0 {
+			if d.h.Size == 0 && i != 0 && errors.Is(err, errReadSize) {
 				// Header not read, and not first file:
 				// EOF, no more data.
 				return fitFiles, nil
